@@ -10,7 +10,7 @@ import itertools
 
 import numpy as np
 
-from .. import core, env, gen, specs
+from .. import core, editwalk, env, gen, specs
 from .. import tdfref as R
 
 PROP = "C13"
@@ -200,8 +200,6 @@ def pairs_shard(acc):
     BTS = specs.lib().types.BTSString
     for w1 in WIDTHS:
         for w2 in WIDTHS:
-            if w1 == w2:
-                continue
             for L in sorted({0, 1, w2 - 2, w2 - 1, w2, w2 + 1, w1 - 1, w1, (w1 + w2) // 2}):
                 if L < 0 or L > 300:
                     continue
@@ -309,6 +307,53 @@ def fields_shard(acc):
                     else:
                         acc.outcomes["field:stored"] += 1
                         acc.n["traces"] += 1
+    # a label changed AFTER the block has been written once: the next write must follow the new text
+    for name, width, make in _field_cases():
+        for newlen, storable in ((width - 1, True), (width, False), (width + 40, False), (3, True)):
+            acc.n["states"] += 1
+            acc.n["evaluations"] += 1
+            acc.n["nontrivial"] += 1
+            sp = make("first")
+            wit = {"kind": "rename", "field": name, "newlen": newlen}
+            try:
+                obj = specs.build(sp)
+                first = specs.lib_encode(obj)
+                obj.nBytes
+                it = [x for x in editwalk.lib_items(obj, sp["type"])][0]
+                attr = {"optical.lens": "lens_name", "optical.type": "camera_type", "optical.name": "camera_name"}.get(name, "label")
+                setattr(it, attr, "r" * newlen)
+                acc.n["transitions"] += 2
+                try:
+                    second = specs.lib_encode(obj)
+                    err = None
+                except Exception as e:  # noqa: BLE001
+                    second, err = None, e
+            except Exception as e:  # noqa: BLE001
+                acc.violation("valid-text-refused", f"{PROP}:field:rename-setup:{name}", wit, f"{type(e).__name__}: {e}")
+                continue
+            desc = f"{name} renamed to {newlen} chars after the block had been written once"
+            if not storable:
+                if err is None:
+                    acc.violation("unstorable-accepted", f"{PROP}:field:unstorable-accepted-after-rename:{name}", wit,
+                                  f"{desc}: written ({len(second)} bytes) instead of ValueError")
+                elif not isinstance(err, ValueError):
+                    acc.violation("wrong-exception", f"{PROP}:field:wrong-exception:{name}:{type(err).__name__}", wit, desc)
+                else:
+                    acc.outcomes["rename:refused"] += 1
+                    acc.n["traces"] += 1
+            elif err is not None:
+                acc.violation("valid-text-refused", f"{PROP}:field:valid-text-refused-after-rename:{name}", wit, f"{desc}: {type(err).__name__}: {err}")
+            else:
+                key = {"optical.lens": "lens", "optical.type": "ctype", "optical.name": "name"}.get(name, "label")
+                want = make("first")
+                spec_it = editwalk.spec_items(want)[0]
+                spec_it[key] = "r" * newlen
+                if second != R.encode_block(want):
+                    acc.violation("field-lossy-or-next-field-damaged", f"{PROP}:field:stale-text-after-rename:{name}", wit,
+                                  f"{desc}: the bytes do not carry the new text")
+                else:
+                    acc.outcomes["rename:stored"] += 1
+                    acc.n["traces"] += 1
     # the jump-table comment
     tmp = env.scratch_dir("c13")
     for L in (0, 1, 254, 255, 256, 257):
